@@ -232,6 +232,8 @@ func main() {
 		mapranges()
 	case "pipeline":
 		pipeline()
+	case "reserved":
+		reservedFacts()
 	case "visitor":
 		visitorFacts()
 	case "passes":
